@@ -123,6 +123,7 @@ class Gen:
             self.fnid[n] = 0x7f000000 + 16 * (i + 1)
 
     def setup_globals(self):
+        todo = []
         for n, g in self.M.globals.items():
             ty = g['type']
             r = self.L.resolve(ty)
@@ -131,7 +132,7 @@ class Gen:
                 for t in range(self.nthreads):
                     o = self.new_obj('%s@%d' % (n, t), ty, 'tls', thread=t)
                     self.globs[(n, t)] = o
-                    self.init_obj(o, g['init'], ty)
+                    todo.append((o, g['init'], ty))
             else:
                 o = self.new_obj(n, ty, 'global')
                 o.immutable = bool(g['const']) or n in self.cfg.get('const_globals', [])
@@ -139,7 +140,16 @@ class Gen:
                     o.cells = []; o.cellmap = {}
                 self.globs[(n, None)] = o
                 if not is_str:
-                    self.init_obj(o, g['init'], ty)
+                    todo.append((o, g['init'], ty))
+        for (o, init, ty) in todo:       # initialisers may refer to globals defined later
+            self.init_obj(o, init, ty)
+        # per-thread initial values of TLS pointers: {"waiter_for_thread": ["W0", "W1", ...]} (names of harness globals)
+        for tls_name, targets in self.cfg.get('tls_init', {}).items():
+            for t, gname in enumerate(targets):
+                if gname and (tls_name, t) in self.globs:
+                    tgt = self.globs[(gname, None)]
+                    self.globs[(tls_name, t)].init[0] = '%dUL' % tgt.base
+                    self.globs[(tls_name, t)].initc[0] = tgt.base
 
     def setup_pools(self):
         for pname, spec in self.cfg.get('pools', {}).items():
